@@ -80,8 +80,8 @@ def parsePipe (r : Req) : Option Pipe := do
   let ops ← if opsS = "-" ∨ opsS = "" then some [] else (opsS.splitOn ",").mapM (parseOp r)
   pure ⟨src, de, ops⟩
 
-def parseSched (s : String) : List Bool :=
-  if s = "-" then [] else s.toList.map (· = 'F')
+def parseSched (s : String) : List Step :=
+  if s = "-" then [] else s.toList.map fun c => if c = 'F' then .f else if c = 'N' then .n else .b
 
 def showPoint (it : It E) (fb : Nat × Nat) : String :=
   let h := showOptNat (it.upper fb.1 fb.2)
@@ -90,11 +90,11 @@ def showPoint (it : It E) (fb : Nat × Nat) : String :=
   s!"{h}:{c}:{col}"
 
 /-- model side: evaluate stage by stage, stop at the first stage whose hint is not its count -/
-def modelLine (p : Pipe) (sched : List Bool) : String :=
+def modelLine (p : Pipe) (sched : List Step) : String :=
   let bad (j : Nat) (it : It E) : Option String :=
     if it.upper 0 0 = some it.len then none else some s!"bad@{j}:{showOptNat (it.upper 0 0)}:{it.len};[]"
   let rec go (j : Nat) (it : It E) : List Op → String
-    | [] => "ok;" ++ showList (showPoint it) (points it.len sched 0 0)
+    | [] => "ok;" ++ showList (showPoint it) (points3 it.len sched 0 0)
     | o :: os =>
       match o.eval it with
       | .error e => e ++ ";[]"
@@ -105,10 +105,10 @@ def modelLine (p : Pipe) (sched : List Bool) : String :=
   | some s => s
   | none => go 0 p.source p.ops
 
-def specLine (p : Pipe) (sched : List Bool) : String :=
+def specLine (p : Pipe) (sched : List Step) : String :=
   match p.specLen with
   | none => "E;[]"
-  | some l => "ok;" ++ showList (fun (fb : Nat × Nat) => let e := l - fb.1 - fb.2; s!"{e}:{e}:ok") (points l sched 0 0)
+  | some l => "ok;" ++ showList (fun (fb : Nat × Nat) => let e := l - fb.1 - fb.2; s!"{e}:{e}:ok") (points3 l sched 0 0)
 
 end C09H
 
